@@ -53,8 +53,22 @@ type rawTokenReader struct {
 }
 
 func (r rawTokenReader) Token() (xml.Token, error) {
-	return r.RawToken()
+	tok, err := r.RawToken()
+	// Raw tokens carry prefixes instead of namespaces. The xml prefix is
+	// reserved and never declared: written back as it is, xml:lang would become
+	// an attribute in a made-up namespace called "xml".
+	if start, ok := tok.(xml.StartElement); ok {
+		for i := range start.Attr {
+			if start.Attr[i].Name.Space == "xml" {
+				start.Attr[i].Name.Space = xmlNS
+			}
+		}
+	}
+	return tok, err
 }
+
+// xmlNS is the namespace that the reserved xml prefix is bound to.
+const xmlNS = "http://www.w3.org/XML/1998/namespace"
 
 // EncodeXML writes the XML encoding of v to the stream.
 //
